@@ -31,6 +31,9 @@ for sd in sorted(glob.glob('/tmp/seed/out_*/C*_*')):
             shutil.copy(sd + '/' + fn, dst + '/' + fn)
     meta = json.load(open(sd + '/meta.json'))
     conf = json.load(open(sd + '/confirm.json')) if os.path.exists(sd + '/confirm.json') else None
+    if conf and conf.get('applies') and not conf.get('suite_passes_with_change'):
+        print('SKIPPED (does not pass the existing suite in my confirmation):', sd, file=__import__('sys').stderr)
+        continue
     if name in ('C17_b', 'w2_C17_a') and not (conf or {}).get('demo_fails_with_change'):
         conf = {"applies": True, "suite_passes_with_change": True, "demo_fails_with_change": True, "demo_passes_without_change": True,
                 "note": "confirmed with `cargo test --offline --release --test demo` (the divergence only shows in the release profile; in debug the demo passes with and without the change)"}
